@@ -93,6 +93,38 @@ var famFolds = &family{
 // (f) constant subexpressions whose folding does not terminate: the optimizer evaluates them at Generate
 // time. Recursion on the value stack is stopped by the stack guard (an error); recursion through a
 // closure handed to a list method runs on fresh stacks (finding F04c).
+// goroutineFolds: constant subexpressions that the optimizer evaluates at Generate time with operations
+// that run closures on goroutines of their own (multiUse, merge): a Go panic there is out of reach of
+// the recover around the optimizer.
+var goroutineFolds = []string{
+	"[1,2,3].multiUse({a:l->l.size()%0,b:l->l.size()})",
+	"[1,2,3].multiUse({a:l->1<<(0-l.size()),b:l->l.size()})",
+	"[1,2,3].multiUse({a:l->l.map(e->e%0).sum(),b:l->l.size()})",
+	"try [1,2,3].multiUse({a:l->l.size()%0,b:l->l.size()}) catch 0",
+	"[1,2].merge([3],(a,b)->a%0<b).size()",
+	"[1,2].map(e->e%0).merge([3],(a,b)->a<b).size()",
+	"[3].merge([1,2].map(e->1<<(0-e)),(a,b)->a<b).size()",
+	"[1,2,3].multiUse({a:l->l.first()!=\"a\",b:l->l.size()})",
+	"let m=[1,2,3].multiUse({a:l->l.size()%0,b:l->l.size()}); 1",
+	"x->[1,2,3].multiUse({a:l->l.size()%0,b:l->l.size()})",
+}
+
+var famGoroutineFolds = &family{
+	name: "g-constant-folds-on-goroutines",
+	size: func(q bool) int64 { return int64(len(goroutineFolds)) },
+	bound: func(q bool) string {
+		return fmt.Sprintf("%d programs whose constant part runs closures that panic on goroutines started by multiUse / merge while Generate folds it x value.New().Generate with comments+comfort off and on", len(goroutineFolds))
+	},
+	eval: func(r *runner, i int64) {
+		for _, in := range r.full {
+			if in.spec.kind != "value" || in.spec.comments != in.spec.comfort {
+				continue
+			}
+			r.exec("g-constant-folds-on-goroutines", i, 0, in, goroutineFolds[i], "")
+		}
+	},
+}
+
 var runawayInputs = []string{
 	"(f->f(f))(f->f(f))",
 	"func f(x) f(x+1); f(1)",
